@@ -435,6 +435,15 @@ func (p *parser) primary() *Node {
 		case "nil", "true", "false":
 			return &Node{Kind: t.s}
 		}
+		if p.isOp("(") && (t.s == "typeis" || t.s == "unboxed") {
+			// typeis(x, T) / unboxed(x, T): the second argument is a type
+			p.p++
+			x := p.expr()
+			p.expectOp(",")
+			ty := p.typeStr()
+			p.expectOp(")")
+			return &Node{Kind: "call", Name: t.s, Kids: []*Node{x, {Kind: "ident", Name: ty}}}
+		}
 		if p.isOp("(") {
 			p.p++
 			a := p.args()
